@@ -163,6 +163,9 @@ class Replayer:
                             raise AssertionError("unknown op " + op)
                         for o in out:
                             add_node(o)
+                    elif a == "copyleaf":
+                        src = nodes[call["t"] - 1]
+                        add_node(sg.nn.Parameter(src) if (len(nodes) + call["t"]) % 2 else sg.Tensor(src))
                     elif a == "setrg":
                         tgt = nodes[call["t"] - 1]
                         if self.rg_route == "module" and isinstance(tgt, sg.nn.Parameter):
